@@ -44,3 +44,12 @@ VARIANTS += [
       rule='C16-EXPLICIT', key="dialect['delimiter']"),
     M('C16', 'refactor-absence-by-membership', E(CW, "                    if dialect.get('encoding') is None:\n                        dialect['encoding'] = encoding", "                    if not dialect.get('encoding'):\n                        dialect['encoding'] = encoding"), kind='refactor'),
 ]
+
+VARIANTS += [
+    M('C16', 'declared-types-forgotten-when-upgrading-is-off', [E(RD, "    specified_types = kw.get('dtype')\n", "    specified_types = kw.get('dtype') if upgrade_types else None\n"),
+                                                                E(RD, "    if upgrade_types and specified_types:", "    if specified_types:")],
+      rule='C16-DECLARED', key='poss_upgrade_to_int'),
+    M('C16', 'possible-ints-upgraded-for-every-column', E(RD, "            if not k in (specified_types or []):\n                poss_upgrade_to_int(df, k)", "            poss_upgrade_to_int(df, k)"),
+      rule='C16-DECLARED', key='poss_upgrade_to_int'),
+    M('C16', 'refactor-declared-set-local', E(RD, "            if not k in (specified_types or []):\n                poss_upgrade_to_int(df, k)", "            declared = specified_types or {}\n            if k not in declared:\n                poss_upgrade_to_int(df, k)"), kind='refactor'),
+]
